@@ -633,6 +633,11 @@ class EnumConverter(Converter):
         if collections.is_array(value):
             values = value
         elif isinstance(value, str):
+            # Whitespace is significant for string enumerations, try as is first
+            for member in cast(type[Enum], data_type):
+                if isinstance(member.value, str) and member.value == value:
+                    return member
+
             value = value.strip()
             values = value.split()
         else:
